@@ -107,6 +107,9 @@ pub struct GramOpts {
     pub anon_in_headers: bool,
     /// allow anonymous routines inside the expression of a raise statement
     pub anon_in_raise: bool,
+    /// second-wave constructs: attributes, helpers, class operators, nested sections in classes,
+    /// record/array constants, width specifiers, labels/goto, hint directives, exports ...
+    pub extended: bool,
 }
 
 impl Default for GramOpts {
@@ -122,6 +125,7 @@ impl Default for GramOpts {
             max_expr_depth: 3,
             anon_in_headers: false,
             anon_in_raise: false,
+            extended: false,
         }
     }
 }
@@ -158,6 +162,10 @@ pub struct Gen<'r> {
     in_header: u32,
     /// anonymous routines generated while in_header > 0
     header_anons: u32,
+    /// labels declared by the routine being generated that `goto` may name
+    labels: Vec<String>,
+    /// `uses X in 'file'` allowed (program / library files)
+    uses_in: bool,
 }
 
 type Anchors = Vec<usize>;
@@ -167,7 +175,7 @@ impl<'r> Gen<'r> {
         let budget = o.size as isize;
         // keyword casing style of this program: 0 lower, 1 Capitalised, 2 UPPER, 3 mixed per keyword
         let upper_keywords = *rng.pick(&[0u32, 0, 0, 1, 2, 3]);
-        Gen { rng, o, p: Program::default(), budget, depth: 0, anon_depth: 0, upper_keywords, in_header: 0, header_anons: 0 }
+        Gen { rng, o, p: Program::default(), budget, depth: 0, anon_depth: 0, upper_keywords, in_header: 0, header_anons: 0, labels: vec![], uses_in: false }
     }
 
     fn feat(&mut self, f: &'static str) {
@@ -285,6 +293,18 @@ impl<'r> Gen<'r> {
             self.push(w, GK::Ident);
         } else if r < 63 {
             self.kw("string");
+            if self.o.extended && depth == 0 && self.rng.chance(1, 4) {
+                self.feat("short-string-type");
+                self.op_tight("[");
+                self.number_small();
+                self.op("]");
+            }
+        } else if r < 65 && self.o.extended && depth == 0 {
+            self.feat("file-type");
+            self.kw("file");
+            self.kw("of");
+            let w = *self.rng.pick(TYPE_NAMES);
+            self.push(w, GK::Ident);
         } else if r < 75 && self.o.allow_generics {
             self.feat("generic-type-ref");
             let w = *self.rng.pick(&["TList", "TDictionary", "TArray", "TFunc", "TObjectList"]);
@@ -774,9 +794,22 @@ impl<'r> Gen<'r> {
             if k > 0 {
                 self.op(";");
             }
+            let attr_first = self.o.extended && self.rng.chance(1, 12);
+            if attr_first {
+                self.feat("parameter-attribute");
+                self.op("[");
+                self.push("Ref", GK::Ident);
+                self.op("]");
+            }
             match self.rng.below(6) {
                 0 => {
                     self.kw("const");
+                    if self.o.extended && !attr_first && self.rng.chance(1, 8) {
+                        self.feat("parameter-attribute");
+                        self.op("[");
+                        self.push("Ref", GK::Ident);
+                        self.op("]");
+                    }
                 }
                 1 => {
                     self.kw("var");
@@ -863,7 +896,7 @@ impl<'r> Gen<'r> {
         let mut own_header_anon = false;
         let simple_only = self.budget <= 0 || self.depth > 7;
         let r = if simple_only { self.rng.below(45) } else { self.rng.below(100) };
-        let mut with_anchor = |me: usize| {
+        let with_anchor = |me: usize| {
             let mut a = vec![me];
             a.extend(outer_anchors.iter().copied());
             a
@@ -881,19 +914,55 @@ impl<'r> Gen<'r> {
             }
             20..=34 => {
                 self.feat("call-statement");
-                self.designator(1);
-                if self.rng.chance(4, 5) {
-                    self.args(0, true);
+                if self.o.extended && self.rng.chance(1, 15) {
+                    // WriteLn(A:5, B:8:2) / Str(V:8:2, S)
+                    self.feat("width-specifier");
+                    let str_form = self.rng.chance(1, 3);
+                    let w = if str_form { "Str" } else { *self.rng.pick(&["WriteLn", "Write"]) };
+                    self.push(w, GK::Ident);
+                    self.op_tight("(");
+                    let n = if str_form { 1 } else { self.rng.range(1, 3) };
+                    for k in 0..n {
+                        if k > 0 {
+                            self.op(",");
+                        }
+                        self.add_expr(2);
+                        if str_form || self.rng.chance(2, 3) {
+                            self.op(":");
+                            self.number_small();
+                            if self.rng.bool() {
+                                self.op(":");
+                                self.number_small();
+                            }
+                        }
+                    }
+                    if str_form {
+                        self.op(",");
+                        self.plain_ident();
+                    }
+                    self.op(")");
+                } else {
+                    self.designator(1);
+                    if self.rng.chance(4, 5) {
+                        self.args(0, true);
+                    }
                 }
             }
             35..=37 => {
-                self.feat("exit-break-continue");
-                let w = *self.rng.pick(&["Exit", "Break", "Continue", "Exit"]);
-                self.push(w, GK::Ident);
-                if w == "Exit" && self.rng.chance(1, 3) {
-                    self.op_tight("(");
-                    self.expr(1);
-                    self.op(")");
+                if !self.labels.is_empty() && self.anon_depth == 0 && self.rng.chance(1, 2) {
+                    self.feat("goto");
+                    self.kw("goto");
+                    let l = self.rng.pick(&self.labels).clone();
+                    self.push(&l, GK::Ident);
+                } else {
+                    self.feat("exit-break-continue");
+                    let w = *self.rng.pick(&["Exit", "Break", "Continue", "Exit"]);
+                    self.push(w, GK::Ident);
+                    if w == "Exit" && self.rng.chance(1, 3) {
+                        self.op_tight("(");
+                        self.expr(1);
+                        self.op(")");
+                    }
                 }
             }
             38..=40 => {
@@ -932,16 +1001,28 @@ impl<'r> Gen<'r> {
                 }
             }
             43..=44 => {
-                self.feat("inline-var");
-                self.kw("var");
-                self.plain_ident();
-                if self.rng.bool() {
-                    self.op(":");
-                    self.type_ident(false);
-                }
-                if self.rng.chance(2, 3) {
-                    self.op(":=");
-                    self.expr(0);
+                if self.o.extended && self.rng.chance(1, 3) {
+                    self.feat("inline-const");
+                    self.kw("const");
+                    self.plain_ident();
+                    if self.rng.chance(1, 3) {
+                        self.op(":");
+                        self.type_ident(false);
+                    }
+                    self.op("=");
+                    self.expr(1);
+                } else {
+                    self.feat("inline-var");
+                    self.kw("var");
+                    self.plain_ident();
+                    if self.rng.bool() {
+                        self.op(":");
+                        self.type_ident(false);
+                    }
+                    if self.rng.chance(2, 3) {
+                        self.op(":=");
+                        self.expr(0);
+                    }
                 }
             }
             45..=59 => {
@@ -1078,6 +1159,7 @@ impl<'r> Gen<'r> {
                     self.p.blocks[bj].closer = Some(e);
                 } else {
                     self.feat("try-except");
+                    let mut except_closed = false;
                     let x = self.kw("except");
                     self.mark_line_start(x);
                     self.mark_line_end();
@@ -1103,6 +1185,28 @@ impl<'r> Gen<'r> {
                             self.body(vec![on]);
                             self.semi();
                         }
+                        if self.o.extended && self.rng.chance(1, 4) {
+                            self.feat("except-else");
+                            self.depth -= 1;
+                            let el = self.kw("else");
+                            self.mark_line_start(el);
+                            self.mark_line_end();
+                            self.p.blocks[bj].closer = Some(el);
+                            let bk = self.p.blocks.len();
+                            self.p.blocks.push(Block { kind: BlockKind::CaseElse, opener: el, closer: None, items: vec![], anchors: vec![el] });
+                            self.depth += 1;
+                            let n = self.rng.range(1, 2);
+                            for _ in 0..n {
+                                let s = self.statement(true);
+                                self.p.blocks[bk].items.push(s);
+                            }
+                            self.depth -= 1;
+                            let e = self.kw("end");
+                            self.mark_line_start(e);
+                            self.p.blocks[bk].closer = Some(e);
+                            self.depth += 1;
+                            except_closed = true;
+                        }
                     } else {
                         let n = self.rng.range(0, 2);
                         for _ in 0..n {
@@ -1111,9 +1215,11 @@ impl<'r> Gen<'r> {
                         }
                     }
                     self.depth -= 1;
-                    let e = self.kw("end");
-                    self.mark_line_start(e);
-                    self.p.blocks[bj].closer = Some(e);
+                    if !except_closed {
+                        let e = self.kw("end");
+                        self.mark_line_start(e);
+                        self.p.blocks[bj].closer = Some(e);
+                    }
                 }
             }
             89..=93 => {
@@ -1210,6 +1316,11 @@ impl<'r> Gen<'r> {
             let m = self.new_name("C");
             self.mark_line_start(m);
             self.p.blocks[bi].items.push(m);
+            if w == "const" && self.o.extended && self.rng.chance(1, 5) {
+                self.structured_const();
+                self.semi();
+                continue;
+            }
             if w == "const" && self.rng.chance(1, 3) {
                 self.feat("typed-const");
                 self.op(":");
@@ -1221,10 +1332,154 @@ impl<'r> Gen<'r> {
             } else {
                 self.expr(1);
             }
+            if self.o.extended && self.rng.chance(1, 12) {
+                self.hint_directive();
+            }
             self.semi();
         }
         self.depth -= 1;
     }
+    /// `: TPoint = (X: 0; Y: 0)`, `: array[0..1] of TPoint = ((X: 0; Y: 0), (X: 1; Y: 1))`,
+    /// `: array[0..2] of Integer = (1, 2, 3)` after the constant's name
+    fn structured_const(&mut self) {
+        self.op(":");
+        match self.rng.below(3) {
+            0 => {
+                self.feat("record-const");
+                self.push("TPoint", GK::Ident);
+                self.op("=");
+                self.record_const_value();
+            }
+            1 => {
+                self.feat("array-of-record-const");
+                let n = self.rng.range(1, 3);
+                self.kw("array");
+                self.op("[");
+                self.push("0", GK::Number);
+                self.op("..");
+                self.push(&(n - 1).to_string(), GK::Number);
+                self.op("]");
+                self.kw("of");
+                self.push("TPoint", GK::Ident);
+                self.op("=");
+                self.op("(");
+                for k in 0..n {
+                    if k > 0 {
+                        self.op(",");
+                    }
+                    self.record_const_value();
+                }
+                self.op(")");
+            }
+            _ => {
+                self.feat("array-const");
+                let n = self.rng.range(1, 6);
+                self.kw("array");
+                self.op("[");
+                self.push("0", GK::Number);
+                self.op("..");
+                self.push(&(n - 1).to_string(), GK::Number);
+                self.op("]");
+                self.kw("of");
+                let strs = self.rng.chance(1, 3);
+                if strs {
+                    self.kw("string");
+                } else {
+                    self.push("Integer", GK::Ident);
+                }
+                self.op("=");
+                self.op("(");
+                for k in 0..n {
+                    if k > 0 {
+                        self.op(",");
+                    }
+                    if strs {
+                        self.string_lit();
+                    } else if self.rng.chance(1, 4) {
+                        let i = self.op("-");
+                        self.p.toks[i].tight_right = true;
+                        self.number_small();
+                    } else {
+                        self.number();
+                    }
+                }
+                self.op(")");
+            }
+        }
+    }
+    fn record_const_value(&mut self) {
+        self.op("(");
+        let n = self.rng.range(1, 3);
+        for k in 0..n {
+            if k > 0 {
+                self.op(";");
+            }
+            let f = *self.rng.pick(&["X", "Y", "Name", "Value", "Left", "Top"]);
+            self.push(f, if SOFT_IDENTS.contains(&f) { GK::SoftIdent } else { GK::Ident });
+            self.op(":");
+            match self.rng.below(4) {
+                0 => self.string_lit(),
+                1 => {
+                    let i = self.op("-");
+                    self.p.toks[i].tight_right = true;
+                    self.number_small();
+                }
+                _ => self.number(),
+            }
+        }
+        self.op(")");
+    }
+    /// `deprecated 'text'`, `platform`, `experimental`, `library` hint directive (no semicolon)
+    fn hint_directive(&mut self) {
+        self.feat("hint-directive");
+        match self.rng.below(4) {
+            0 => {
+                self.kw("deprecated");
+                self.push("'use something else'", GK::Str);
+            }
+            1 => {
+                self.kw("deprecated");
+            }
+            2 => {
+                self.kw("platform");
+            }
+            _ => {
+                self.kw("experimental");
+            }
+        }
+    }
+    /// `[Attr]` / `[Attr(1, 'x')]` / `[A, B]`; the caller marks the line start
+    fn attribute(&mut self) -> usize {
+        self.feat("attribute");
+        let first = self.op("[");
+        let n = if self.rng.chance(1, 6) { 2 } else { 1 };
+        for k in 0..n {
+            if k > 0 {
+                self.op(",");
+            }
+            let w = *self.rng.pick(&["Test", "Weak", "Volatile", "TestCase", "Setup", "Column", "JsonName"]);
+            self.push(w, GK::Ident);
+            if self.rng.chance(1, 2) {
+                self.op_tight("(");
+                let m = self.rng.range(1, 3);
+                for j in 0..m {
+                    if j > 0 {
+                        self.op(",");
+                    }
+                    if self.rng.bool() {
+                        self.string_lit();
+                    } else {
+                        self.number();
+                    }
+                }
+                self.op(")");
+            }
+        }
+        self.op("]");
+        self.mark_line_end();
+        first
+    }
+
     fn var_section(&mut self) {
         self.feat("var-section");
         let w = if self.rng.chance(1, 8) { "threadvar" } else { "var" };
@@ -1240,9 +1495,11 @@ impl<'r> Gen<'r> {
             let m = self.new_name("V");
             self.mark_line_start(m);
             self.p.blocks[bi].items.push(m);
+            let mut single = true;
             if self.rng.chance(1, 4) {
                 self.op(",");
                 self.new_name("W");
+                single = false;
             }
             self.op(":");
             self.type_ref(0);
@@ -1250,6 +1507,11 @@ impl<'r> Gen<'r> {
                 self.feat("initialised-var");
                 self.op("=");
                 self.number();
+            } else if w == "var" && self.o.extended && self.rng.chance(1, 10) && single && self.p.toks[self.p.toks.len() - 2].text == ":" {
+                // only a single variable of a simple type may be `absolute`
+                self.feat("absolute-var");
+                self.kw("absolute");
+                self.plain_ident();
             }
             self.semi();
         }
@@ -1306,6 +1568,29 @@ impl<'r> Gen<'r> {
                 self.kw(d);
                 self.semi();
             }
+        } else if self.o.extended && self.rng.chance(1, 8) {
+            match self.rng.below(3) {
+                0 if in_type && !is_func => {
+                    self.feat("message-directive");
+                    self.kw("message");
+                    self.push("WM_PAINT", GK::Ident);
+                    self.semi();
+                }
+                1 if !in_type && !qualified => {
+                    self.feat("external-directive");
+                    self.kw("external");
+                    self.push("'kernel32.dll'", GK::Str);
+                    if self.rng.bool() {
+                        self.kw("name");
+                        self.push("'DoItW'", GK::Str);
+                    }
+                    self.semi();
+                }
+                _ => {
+                    self.hint_directive();
+                    self.semi();
+                }
+            }
         }
     }
 
@@ -1313,8 +1598,19 @@ impl<'r> Gen<'r> {
         let what = self.rng.below(10);
         let w = if what < 7 { "class" } else { "record" };
         self.feat(if w == "class" { "class-type" } else { "record-type" });
+        let mut modifier = false;
+        if w == "record" && self.o.extended && self.rng.chance(1, 4) {
+            self.feat("packed-record");
+            self.kw("packed");
+        }
         let head = self.kw(w);
-        if w == "class" && self.rng.bool() {
+        if w == "class" && self.o.extended && self.rng.chance(1, 8) {
+            self.feat("class-abstract-sealed");
+            let m = *self.rng.pick(&["abstract", "sealed"]);
+            self.kw(m);
+            modifier = true;
+        }
+        if w == "class" && (modifier || self.rng.bool()) {
             self.op_tight("(");
             let t = *self.rng.pick(&["TObject", "TInterfacedObject", "TComponent", "TBase"]);
             self.push(t, GK::Ident);
@@ -1333,6 +1629,14 @@ impl<'r> Gen<'r> {
         let n0 = self.rng.below(3);
         for _ in 0..n0 {
             let m = self.member(w == "class");
+            self.p.blocks[body_bi].items.push(m);
+        }
+        if w == "record" && self.o.extended && self.rng.chance(1, 4) {
+            let m = self.class_operator_decl();
+            self.p.blocks[body_bi].items.push(m);
+        }
+        if self.o.extended && self.rng.chance(1, 6) {
+            let m = self.nested_section();
             self.p.blocks[body_bi].items.push(m);
         }
         let nsec = self.rng.below(4);
@@ -1357,6 +1661,10 @@ impl<'r> Gen<'r> {
                 let m = self.member(w == "class");
                 self.p.blocks[bi].items.push(m);
             }
+            if self.o.extended && self.rng.chance(1, 8) {
+                let m = self.nested_section();
+                self.p.blocks[bi].items.push(m);
+            }
             self.depth -= 1;
         }
         self.depth -= 1;
@@ -1365,9 +1673,105 @@ impl<'r> Gen<'r> {
         self.p.blocks[body_bi].closer = Some(e);
     }
 
+    /// `class operator Add(A, B: TFoo): TFoo;` inside a record
+    fn class_operator_decl(&mut self) -> usize {
+        self.feat("class-operator");
+        self.budget -= 1;
+        let first = self.kw("class");
+        self.kw("operator");
+        let n = *self.rng.pick(&["Add", "Subtract", "Implicit", "Explicit", "Equal", "Negative"]);
+        self.push(n, GK::Ident);
+        self.op_tight("(");
+        self.push("A", GK::Ident);
+        if !matches!(n, "Implicit" | "Explicit" | "Negative") {
+            self.op(",");
+            self.push("B", GK::Ident);
+        }
+        self.op(":");
+        self.push("TFoo", GK::Ident);
+        self.op(")");
+        self.op(":");
+        let t = if n == "Equal" { "Boolean" } else { *self.rng.pick(&["TFoo", "Integer", "Double"]) };
+        self.push(t, GK::Ident);
+        self.semi();
+        self.mark_line_start(first);
+        first
+    }
+
+    /// nested `type` / `const` / `var` / `class var` section inside a class or record (placed last in
+    /// its member list); returns the section keyword
+    fn nested_section(&mut self) -> usize {
+        self.feat("nested-section-in-type");
+        self.budget -= 1;
+        let which = self.rng.below(4);
+        let first = self.p.toks.len();
+        match which {
+            0 => {
+                self.kw("type");
+            }
+            1 => {
+                self.kw("const");
+            }
+            2 => {
+                self.kw("var");
+            }
+            _ => {
+                self.kw("class");
+                self.kw("var");
+            }
+        }
+        self.mark_line_start(first);
+        self.mark_line_end();
+        let bi = self.p.blocks.len();
+        self.p.blocks.push(Block { kind: BlockKind::DeclSection, opener: first, closer: None, items: vec![], anchors: vec![first] });
+        self.depth += 1;
+        let n = self.rng.range(1, 2);
+        for _ in 0..n {
+            let m = match which {
+                0 => {
+                    let m = self.new_name("TInner");
+                    self.op("=");
+                    self.type_ref(0);
+                    m
+                }
+                1 => {
+                    let m = self.new_name("C");
+                    self.op("=");
+                    // no anonymous routines here: a type body holds no code, and a `case` inside one
+                    // would have to be read as a variant part
+                    let saved = std::mem::replace(&mut self.anon_depth, 99);
+                    self.expr(1);
+                    self.anon_depth = saved;
+                    m
+                }
+                _ => {
+                    let m = self.new_name("F");
+                    self.op(":");
+                    self.type_ref(0);
+                    m
+                }
+            };
+            self.semi();
+            self.mark_line_start(m);
+            self.p.blocks[bi].items.push(m);
+        }
+        self.depth -= 1;
+        first
+    }
+
     fn member(&mut self, is_class: bool) -> usize {
         self.budget -= 1;
         let first = self.p.toks.len();
+        let mut after_attr = None;
+        if self.o.extended && self.rng.chance(1, 8) {
+            let a = self.attribute();
+            self.mark_line_start(a);
+            if self.rng.chance(1, 4) {
+                let a2 = self.attribute();
+                self.mark_line_start(a2);
+            }
+            after_attr = Some(self.p.toks.len());
+        }
         match self.rng.below(10) {
             0..=4 => {
                 self.feat("field");
@@ -1397,18 +1801,36 @@ impl<'r> Gen<'r> {
                 }
                 self.op(":");
                 self.type_ident(false);
+                if self.o.extended && self.rng.chance(1, 8) {
+                    self.feat("property-index");
+                    self.kw("index");
+                    self.number_small();
+                }
                 self.kw("read");
                 self.new_name("F");
                 if self.rng.bool() {
                     self.kw("write");
                     self.new_name("Set");
                 }
+                if is_class && self.o.extended && self.rng.chance(1, 6) {
+                    self.feat("property-stored");
+                    self.kw("stored");
+                    let w = *self.rng.pick(&["False", "True", "IsStored"]);
+                    self.push(w, GK::Ident);
+                }
                 if is_class && self.rng.chance(1, 6) {
                     self.kw("default");
                     self.number_small();
+                } else if is_class && self.o.extended && self.rng.chance(1, 10) {
+                    self.feat("property-nodefault");
+                    self.kw("nodefault");
                 }
                 self.semi();
             }
+        }
+        if let Some(m) = after_attr {
+            // the member proper starts its own line below its attributes
+            self.mark_line_start(m);
         }
         self.mark_line_start(first);
         first
@@ -1425,9 +1847,21 @@ impl<'r> Gen<'r> {
         let n = self.rng.range(1, 3);
         for _ in 0..n {
             self.budget -= 1;
+            let mut attr = None;
+            if self.o.extended && self.rng.chance(1, 10) {
+                let a = self.attribute();
+                self.mark_line_start(a);
+                attr = Some(a);
+            }
             let m = self.new_name("T");
             self.mark_line_start(m);
-            self.p.blocks[bi].items.push(m);
+            self.p.blocks[bi].items.push(attr.unwrap_or(m));
+            if self.o.extended && self.rng.chance(1, 8) {
+                self.op("=");
+                self.extended_type_rhs(m);
+                self.semi();
+                continue;
+            }
             let rhs_kind = self.rng.below(12);
             // only classes, records, interfaces and procedural types can be generic
             if self.o.allow_generics && matches!(rhs_kind, 0..=4 | 6 | 8) && self.rng.chance(1, 4) {
@@ -1439,6 +1873,23 @@ impl<'r> Gen<'r> {
                 if self.rng.chance(1, 3) {
                     self.op(":");
                     self.kw("class");
+                    if self.o.extended && self.rng.chance(1, 2) {
+                        self.feat("generic-constraint-list");
+                        self.op(",");
+                        self.kw("constructor");
+                    }
+                }
+                if self.o.extended && self.rng.chance(1, 4) {
+                    self.feat("generic-constraint-list");
+                    self.op(";");
+                    self.push("U", GK::Ident);
+                    self.op(":");
+                    let c = *self.rng.pick(&["record", "IInterface", "TObject"]);
+                    if c == "record" {
+                        self.kw(c);
+                    } else {
+                        self.push(c, GK::Ident);
+                    }
                 }
                 let i = self.op(">");
                 self.p.toks[i].tight_left = true;
@@ -1587,12 +2038,77 @@ impl<'r> Gen<'r> {
         self.depth -= 1;
     }
 
+    /// helper types, class references: `class helper for TFoo ... end`, `record helper for TRec ... end`,
+    /// `class of TFoo`
+    fn extended_type_rhs(&mut self, name_tok: usize) {
+        match self.rng.below(3) {
+            0 => {
+                self.feat("class-reference-type");
+                self.kw("class");
+                self.kw("of");
+                let t = *self.rng.pick(&["TFoo", "TBar", "TComponent", "Exception"]);
+                self.push(t, GK::Ident);
+            }
+            k => {
+                self.feat("helper-type");
+                let head = self.kw(if k == 1 { "class" } else { "record" });
+                self.kw("helper");
+                self.kw("for");
+                let t = *self.rng.pick(&["TFoo", "TBar", "TStrings", "TRec"]);
+                self.push(t, GK::Ident);
+                self.mark_line_end();
+                let body_bi = self.p.blocks.len();
+                self.p.blocks.push(Block { kind: BlockKind::TypeBody, opener: head, closer: None, items: vec![], anchors: vec![name_tok] });
+                self.depth += 1;
+                let c = self.rng.range(0, 3);
+                for _ in 0..c {
+                    let first = self.p.toks.len();
+                    self.feat("method-decl");
+                    self.routine_heading(false, true);
+                    self.mark_line_start(first);
+                    self.p.blocks[body_bi].items.push(first);
+                }
+                self.depth -= 1;
+                let e = self.kw("end");
+                self.mark_line_start(e);
+                self.p.blocks[body_bi].closer = Some(e);
+            }
+        }
+    }
+
     fn routine_impl(&mut self, qualified: bool) {
         self.feat("routine-impl");
         self.budget -= 1;
         let first = self.p.toks.len();
         self.routine_heading_impl(qualified);
         self.mark_line_start(first);
+        let saved_labels = std::mem::take(&mut self.labels);
+        let mut pending_labels: Vec<String> = vec![];
+        if self.o.extended && self.rng.chance(1, 10) {
+            // label section; every declared label is set exactly once, in the routine's own statement list
+            self.feat("label-section");
+            let k = self.kw("label");
+            self.mark_line_start(k);
+            self.mark_line_end();
+            let bi = self.p.blocks.len();
+            self.p.blocks.push(Block { kind: BlockKind::DeclSection, opener: k, closer: None, items: vec![], anchors: vec![k] });
+            self.depth += 1;
+            let n = self.rng.range(1, 2);
+            for j in 0..n {
+                if j > 0 {
+                    self.op(",");
+                }
+                let name = format!("Lbl{}", self.rng.below(100) * 2 + j as usize);
+                let t = self.push(&name, GK::Ident);
+                if j == 0 {
+                    self.mark_line_start(t);
+                    self.p.blocks[bi].items.push(t);
+                }
+                pending_labels.push(name);
+            }
+            self.semi();
+            self.depth -= 1;
+        }
         // local declarations
         let nd = self.rng.below(3);
         for _ in 0..nd {
@@ -1613,7 +2129,37 @@ impl<'r> Gen<'r> {
         }
         let n = if self.budget > 0 { self.rng.range(1, 5) } else { self.rng.range(0, 1) };
         let b = self.p.toks.len();
-        self.begin_end_block(BlockKind::PlainBegin, vec![b], n);
+        if pending_labels.is_empty() {
+            self.begin_end_block(BlockKind::PlainBegin, vec![b], n);
+        } else {
+            self.labels = pending_labels.clone();
+            let bk = self.kw("begin");
+            self.mark_line_end();
+            let bi = self.p.blocks.len();
+            self.p.blocks.push(Block { kind: BlockKind::PlainBegin, opener: bk, closer: None, items: vec![], anchors: vec![b] });
+            self.depth += 1;
+            let total = n.max(pending_labels.len());
+            for j in 0..total {
+                if j < pending_labels.len() {
+                    self.feat("labelled-statement");
+                    let l = self.push(&pending_labels[j].clone(), GK::Ident);
+                    self.mark_line_start(l);
+                    self.p.blocks[bi].items.push(l);
+                    self.op(":");
+                    self.mark_line_end();
+                    // the statement proper follows on its own line, at the label's indentation
+                    self.statement(true);
+                } else {
+                    let s = self.statement(true);
+                    self.p.blocks[bi].items.push(s);
+                }
+            }
+            self.depth -= 1;
+            let e = self.kw("end");
+            self.mark_line_start(e);
+            self.p.blocks[bi].closer = Some(e);
+        }
+        self.labels = saved_labels;
         self.mark_line_start(b);
         self.semi();
     }
@@ -1662,6 +2208,28 @@ impl<'r> Gen<'r> {
         }
     }
 
+    fn exports_clause(&mut self) {
+        self.feat("exports-clause");
+        let k = self.kw("exports");
+        self.mark_line_start(k);
+        let n = self.rng.range(1, 3);
+        for i in 0..n {
+            if i > 0 {
+                self.op(",");
+            }
+            self.plain_ident();
+            if self.rng.chance(1, 3) {
+                self.kw("index");
+                self.number_small();
+            }
+            if self.rng.chance(1, 2) {
+                self.kw("name");
+                self.push("'exported_name'", GK::Str);
+            }
+        }
+        self.semi();
+    }
+
     fn uses_clause(&mut self) {
         self.feat("uses");
         let k = self.kw("uses");
@@ -1679,6 +2247,12 @@ impl<'r> Gen<'r> {
                 }
                 first = false;
                 self.push(part, GK::Ident);
+            }
+            if self.uses_in && self.rng.chance(1, 2) {
+                self.feat("uses-in-file");
+                self.kw("in");
+                let f = format!("'{}.pas'", u.replace('.', "\\"));
+                self.push(&f, GK::Str);
             }
         }
         self.semi();
@@ -1780,12 +2354,17 @@ impl<'r> Gen<'r> {
         self.push("MyProg", GK::Ident);
         self.semi();
         if self.rng.chance(2, 3) {
+            self.uses_in = self.o.extended && self.rng.chance(1, 3);
             self.uses_clause();
+            self.uses_in = false;
         }
         let mut guard = 0;
         while self.budget > 3 && guard < 40 {
             guard += 1;
             self.decl_sections(1, true);
+        }
+        if w == "library" && self.o.extended && self.rng.chance(1, 2) {
+            self.exports_clause();
         }
         let b = self.p.toks.len();
         let n = self.rng.range(1, 5);
